@@ -325,6 +325,19 @@ func (r *runner) start(c *client, op string) {
 	c.running = ch
 	c.op = op
 	lease := c.lease
+	if lease != nil {
+		// model time: the handle the caller holds has aged with the model clock (real TTL = TTL hours, one tick = one
+		// hour); present it to the real code with the expiry it would have after that much time.
+		cp := *lease
+		r.f.mu.Lock()
+		exp, ok := r.f.tagExp[parseTag(&lease.ETag)]
+		now := r.f.now
+		r.f.mu.Unlock()
+		if ok {
+			cp.ExpiresAt = time.Now().Add(time.Duration(exp-now)*tick + tick/2)
+		}
+		lease = &cp
+	}
 	go func() {
 		var res opResult
 		res.t0 = time.Now()
